@@ -342,6 +342,25 @@ slab_fixed (int which)
 }
 #define NFIXED 15
 
+/* salts that grow past what the output field can hold: each call either succeeds with a well-formed hash of the method or fails
+   closed (for the methods that echo an unbounded salt, with 1-, 2- and 4-digit cost spellings) */
+static void
+slab_longsalt (int which, int L)
+{
+  static const char *const heads[] = { "$sha1$3$", "$sha1$24$", "$sha1$4096$", "$md5$", "$md5,rounds=7$", "$7$2/..../....", "$y$j/.$", "$gy$j/.$", "$1$", "$6$rounds=1000$" };
+  static const int hm[] = { M_SHA1, M_SHA1, M_SHA1, M_SUNMD5, M_SUNMD5, M_SCRYPT, M_YESCRYPT, M_GOST, M_MD5, M_SHA512 };
+  static char S[700];
+  char rp[40];
+  size_t hl = strlen (heads[which]);
+  memcpy (S, heads[which], hl);
+  for (int i = 0; i < L; i++)
+    S[hl + (size_t) i] = A64[(i * 11 + L) % 64];
+  S[hl + (size_t) L] = 0;
+  snprintf (rp, sizeof rp, "l:%d:%d", which, L);
+  all_ways (hm[which], "pw", S, 0, "over-long-salt", rp, L % 16 == 0);
+  vh_stat ("long_salt_cases", 1);
+}
+
 /* a forbidden byte far into a long setting: valid settings followed by a tail (ignored by most methods) of total length
    384..1200, every forbidden byte class at the boundary positions of the 384-byte fields and at the very end */
 static void
@@ -618,6 +637,8 @@ main (int argc, char **argv)
         slab_unknown (a);
       else if (sscanf (vh_replay, "t:%d:%d", &a, &b) == 2)
         slab_longtail (a, b);
+      else if (sscanf (vh_replay, "l:%d:%d", &a, &b) == 2)
+        slab_longsalt (a, b);
       else if (sscanf (vh_replay, "z:%d", &a) == 1)
         slab_sizes (a);
       else if (!strncmp (vh_replay, "h:", 2))
@@ -644,6 +665,10 @@ main (int argc, char **argv)
     for (int li = 0; li < 10; li++)
       if (vh_mine (idx++))
         slab_longtail (m, li);
+  for (int which = 0; which < 10; which++)
+    for (int L = 280; L <= 520; L += (L >= 300 && L <= 400) ? 1 : 8)
+      if (vh_mine (idx++))
+        slab_longsalt (which, L);
   for (int m = 0; m < M_COUNT && !vh_expired (); m++)
     for (int b = 0; b < 3; b++)
       {
